@@ -249,6 +249,7 @@ def handle (cmd : String) (j : J) : Except String J :=
     pure (J.obj [("init", ctlfSnap g.length r0.1 r0.2), ("steps", J.arr (ctlfRun g r0.1 ops))])
   | "rules2" => handleRules2 j
   | "genrules" => C07GenDrv.handleGenRules j
+  | "gennl" => C07GenDrv.handleGenNL j
   | "genctl" => do
     let g ← (← j.get "defns").toListOf parseDefn
     let s0 ← (← j.get "settings").toListOf J.toInt
